@@ -86,39 +86,90 @@ def normalisation(prog, rep):
     fi = prog.func("_timestamp_parse")
     g = cfg_of(fi)
     x = fi.params[0]
-    rets = [n for n in walk_own(fi.node) if isinstance(n, ast.Return)]
-    if len(rets) != 1 or not isinstance(rets[0].value, ast.Name):
-        rep.undecided("NORMALISE", fi.short, "return", "not a single `return <var>`", fi.loc())
+    if g.has_loop():
+        rep.undecided("NORMALISE", fi.short, "shape", "loop in _timestamp_parse", fi.loc())
         return
-    v = rets[0].value.id
-    asg = [n for n in walk_own(fi.node) if isinstance(n, ast.Assign) and norm(n.targets[0]) == v]
-    # parse step
-    parse = [a for a in asg if "iso8601.parse_date" in norm(a.value)]
-    okp = len(parse) == 1 and norm(parse[0].value) in (f"iso8601.parse_date({x}) if isinstance({x}, str) else {x}",)
-    rep.check(okp, "NORMALISE", fi.short, "string parsing", "iso8601.parse_date for str input, datetimes as is", f"input is converted by `{norm(parse[0].value) if parse else 'nothing'}`", fi.loc())
-    # floor step
-    floors = [a for a in asg if isinstance(a.value, ast.Call) and norm(a.value.func) == f"{v}.replace" and [k.arg for k in a.value.keywords] == ["microsecond"]]
-    okf = False
-    why = "no microsecond floor"
-    if len(floors) == 1:
-        c = canon_int(floors[0].value.keywords[0].value, None)
-        okf = is_floor_ms(c, f"{v}.microsecond")
-        why = f"microsecond is set to `{norm(floors[0].value.keywords[0].value)}`, which is not a floor to a multiple of 1000"
-        if okf:
-            okf = g.postdominates(g.node_of(floors[0]), g.entry)
-            why = "the millisecond floor is skipped on some path"
-    rep.check(okf, "NORMALISE", fi.short, "millisecond floor", "ts.replace(microsecond=floor to 1000) on every path", why, fi.loc())
-    # tz default
-    tz = [a for a in asg if isinstance(a.value, ast.Call) and norm(a.value.func) == f"{v}.replace" and [k.arg for k in a.value.keywords] == ["tzinfo"]]
-    okt = False
-    why = "naive timestamps are not given a timezone"
-    if len(tz) == 1:
-        pr = parent(tz[0])
-        okt = norm(tz[0].value.keywords[0].value) in ("timezone.utc", "datetime.timezone.utc") and isinstance(pr, ast.If) and tz[0] in pr.body and norm(pr.test) in (f"not {v}.tzinfo", f"{v}.tzinfo is None")
-        why = f"tzinfo is attached as `{norm(tz[0])}` under `{norm(pr.test) if isinstance(pr, ast.If) else 'no test'}`: it must be UTC, and only for naive values (replace() on an aware value changes the instant)"
-    rep.check(okt, "NORMALISE", fi.short, "UTC for naive values", "replace(tzinfo=timezone.utc) iff naive", why, fi.loc())
-    others = [a for a in asg if a not in parse and a not in floors and a not in tz]
-    rep.check(not others, "NORMALISE", fi.short, "no other rewriting", "", f"the value is also rewritten by `{norm(others[0]) if others else ''}`", fi.loc())
+    # parse step: strings (and only strings) go through iso8601.parse_date
+    t = norm(fi.node)
+    okp = f"iso8601.parse_date({x}) if isinstance({x}, str) else {x}" in t or (f"if isinstance({x}, str):" in t and f"iso8601.parse_date({x})" in t)
+    rep.check(okp, "NORMALISE", fi.short, "string parsing", "iso8601.parse_date for str input, datetimes as is", "string input is not parsed with iso8601.parse_date (or non-strings are)", fi.loc())
+
+    def replace_kw(e):
+        """<v>.replace(<kw>=value) applications inside an expression -> list of (kw, value expr, receiver text)"""
+        out = []
+        for n in ast.walk(e):
+            if isinstance(n, ast.Call) and isinstance(n.func, ast.Attribute) and n.func.attr == "replace" and not n.args and len(n.keywords) == 1:
+                out.append((n.keywords[0].arg, n.keywords[0].value, norm(n.func.value)))
+        return out
+
+    def naive_literal(lab):
+        """edge asserts 'the value has no tzinfo' -> True; asserts it has -> False; else None"""
+        if not lab or lab[0] != "cond":
+            return None
+        tt, pol = norm(lab[1]), lab[2]
+        if tt.endswith(".tzinfo"):
+            return not pol
+        if tt.endswith(".tzinfo is None"):
+            return pol
+        if tt.endswith(".tzinfo is not None"):
+            return not pol
+        return None
+
+    paths = g.paths(ends={g.exit})
+    n_ok = 0
+    for path in paths:
+        floors, tzs, other = [], [], []
+        naive = None
+        returns_value = False
+        for nid, lab in path:
+            nl = naive_literal(lab)
+            if nl is not None:
+                naive = nl
+            n = g.nodes[nid]
+            if n.kind != "stmt":
+                continue
+            a = n.ast
+            exprs = []
+            if isinstance(a, ast.Assign):
+                exprs = [a.value]
+            elif isinstance(a, ast.Return) and a.value is not None:
+                exprs = [a.value]
+                returns_value = True
+            for e in exprs:
+                for kw, val, recv in replace_kw(e):
+                    if kw == "microsecond":
+                        floors.append((val, recv))
+                    elif kw == "tzinfo":
+                        tzs.append(val)
+                    else:
+                        other.append(kw)
+        if not returns_value:
+            continue
+        where = fi.loc(g.nodes[path[-2][0]].ast) if len(path) > 1 and g.nodes[path[-2][0]].ast is not None else fi.loc()
+        if len(floors) != 1 or not is_floor_ms(canon_int(floors[0][0], fi), f"{floors[0][1]}.microsecond"):
+            why = "the millisecond floor is skipped on this path" if not floors else f"microsecond is set to `{norm(floors[0][0])}`, which is not a floor to a multiple of 1000"
+            rep.violation("NORMALISE", fi.short, "millisecond floor", why + f" (path through lines {[g.nodes[i].line for i, _ in path if g.nodes[i].line][-4:]})", where)
+            continue
+        if other:
+            rep.violation("NORMALISE", fi.short, "no other rewriting", f"the value is also rewritten by replace({other[0]}=...)", where)
+            continue
+        if tzs:
+            okz = all(norm(v) in ("timezone.utc", "datetime.timezone.utc") for v in tzs) and naive is True
+            if not okz:
+                rep.violation("NORMALISE", fi.short, "UTC for naive values", f"tzinfo is attached as `{norm(tzs[0])}` on a path that is not known to carry a naive value: replace() on an aware value changes the instant, and the zone must be UTC", where)
+                continue
+        else:
+            if naive is True:
+                rep.violation("NORMALISE", fi.short, "UTC for naive values", "a naive timestamp is returned without a timezone", where)
+                continue
+            if naive is None:
+                rep.violation("NORMALISE", fi.short, "UTC for naive values", "naive timestamps are not given a timezone (no test of tzinfo on this path)", where)
+                continue
+        n_ok += 1
+    if n_ok:
+        rep.ok("NORMALISE", fi.short, "millisecond floor", f"floor to a multiple of 1000 on each of {n_ok} returning path(s)", fi.loc())
+        rep.ok("NORMALISE", fi.short, "UTC for naive values", "replace(tzinfo=timezone.utc) exactly on the naive path(s)", fi.loc())
+    rep.floor("_timestamp_parse returning paths", len([p for p in paths]), 2)
 
 
 def duration_dispatch(prog, rep):
@@ -184,7 +235,8 @@ def json_agreement(prog, rep):
     # getters read the same keys the setters write
     for f in FIELDS:
         gt = prog.func(f"Event.{f}")
-        rep.check(f"self['{f}']" in norm(gt.node), "JSON", gt.short, "getter", f"reads self['{f}']", f"the {f} getter does not read the key its setter writes", gt.loc())
+        tg = norm(gt.node)
+        rep.check(f"self['{f}']" in tg or f"self.get('{f}'" in tg, "JSON", gt.short, "getter", f"reads self['{f}']", f"the {f} getter does not read the key its setter writes", gt.loc())
 
 
 def check(prog, rep):
